@@ -141,6 +141,22 @@ def programs():
                     ("tuple[int, tuple[int, int]]", "(1, (2,))")):
         add(f"comptime:{ty}={val}", f"c: {ty} = comptime({val})")
         add(f"comptime_arg:{ty}={val}", f"def g(a: {ty}) -> None:\n    pass", f"g(comptime({val}))")
+    # 8. layout: an ill-typed link / operand of an expression wrapped over several source lines, so that the span of
+    #    the error (often a node synthesised by the builder) crosses lines; tails shorter and longer than the head
+    bad_operands = ["(x, 1)", "(x, 1, 2, 3, 4, 5, 6, 7, 8, 9)", "t", "xs", "unit()"]
+    heads = ["0 <= x", "0 <= x * 1000000 + x", "f < x < 3"]
+    for hi, head in enumerate(heads):
+        for bi, bad in enumerate(bad_operands):
+            for ind in (0, 2, 8, 30):
+                pad = " " * ind
+                add(f"layout:chain:{hi}:{bi}:{ind}", f"r = ({head}\n{pad}< {bad})")
+                add(f"layout:chain3:{hi}:{bi}:{ind}", f"r = ({head}\n{pad}< {bad}\n{pad}< 10)")
+                add(f"layout:chain_if:{hi}:{bi}:{ind}", f"if ({head}\n{pad}<= {bad}\n{pad}< 10):\n    pass")
+                add(f"layout:boolop:{hi}:{bi}:{ind}", f"r = ({head} and\n{pad}{bad} and\n{pad}b)")
+                add(f"layout:binop:{hi}:{bi}:{ind}", f"r = (x +\n{pad}{bad} +\n{pad}1)")
+                add(f"layout:ifexp:{hi}:{bi}:{ind}", f"r = (x if\n{pad}{bad}\n{pad}else 2)")
+                add(f"layout:call:{hi}:{bi}:{ind}", f"r = takes_tuple(\n{pad}{bad},\n{pad}x)")
+                add(f"layout:while:{hi}:{bi}:{ind}", f"while (x <\n{pad}{bad}\n{pad}< 3):\n    pass")
     out = []
     seen = set()
     for name, body, exp in bodies:
